@@ -1,7 +1,200 @@
-/- placeholder driver for C20: replaced when the model is built -/
-import AcnModel.Wire
-open Lean Acn.Wire
+/-
+  Driver for C20: the ACN-Data client model against a fake server described in the request.
 
-def handle (_ : Json) : Except String Json := throw "driver for C20 not built yet"
+  ops
+    {"op":"sessions", base, site, cond, project, sort, timeseries, server, fuel, zones}
+    {"op":"by_time",  base, site, start, end, min_energy, timeseries, count, server, head, fuel, zones}
+    {"op":"count",    base, site, cond, head}
+    {"op":"http_date", dt}                     dt = {"f":[y,mo,d,h,mi,s], "off":seconds}
+    {"op":"parse", s, zone}                    zone = {"init":o, "trans":[[t,o],…]}
+    {"op":"dates", zones, items:[{"dt":aware | "s":str, "zone":name}…]}   http_date then parse_http_date
+  server = [[url, resp]…]; resp = {"kind":"page","items":[doc…],"next":{"t":"last"|"broken"|"next","href":…}}
+                                | {"kind":"fail","err":name};  unknown URL = KeyError (error payload)
+  doc    = [[key, {"s":str} | {"ts":[str…]} | {"o":true}]…]
+-/
+import AcnModel.Wire
+import AcnModel.DataClient
+open Lean Acn Acn.Wire Acn.HttpDate Acn.DataClient
+
+def getOptStr (j : Json) (k : String) : Except String (Option String) :=
+  getOpt j k (fun v => v.getStr?)
+
+def asInt (v : Json) : Except String Int := v.getInt?
+
+def parseZone (j : Json) : Except String Zone := do
+  let init ← getInt j "init"
+  let tr ← getArr j "trans"
+  let trans ← tr.mapM fun p => do
+    let a ← asArr p
+    match a with
+    | [t, o] => pure ((← asInt t), (← asInt o))
+    | _ => throw "bad transition"
+  pure { init, trans }
+
+def parseZones (j : Json) : Except String (List (String × Zone)) := do
+  let a ← getArr j "zones"
+  a.mapM fun p => do
+    match ← asArr p with
+    | [n, z] => pure ((← n.getStr?), (← parseZone z))
+    | _ => throw "bad zone entry"
+
+def zoneLookup (zs : List (String × Zone)) (name : String) : Option Zone :=
+  match zs.find? (fun p => p.1 == name) with
+  | some p => some p.2
+  | none => none
+
+def parseAware (j : Json) : Except String Aware := do
+  let f ← getArr j "f"
+  let off ← getInt j "off"
+  match f with
+  | [y, mo, d, h, mi, s] =>
+    pure { loc := { y := ← asInt y, mo := ← asInt mo, d := ← asInt d, h := ← asInt h,
+                    mi := ← asInt mi, s := ← asInt s }, off }
+  | _ => throw "bad fields"
+
+def parseVal (j : Json) : Except String Val := do
+  match j.getObjVal? "s" with
+  | .ok v => pure (.str (← v.getStr?))
+  | .error _ =>
+    match j.getObjVal? "ts" with
+    | .ok v => do
+      let a ← asArr v
+      pure (.ts (← a.mapM fun x => x.getStr?))
+    | .error _ => pure .other
+
+def parseDoc (j : Json) : Except String Doc := do
+  let a ← asArr j
+  a.mapM fun p => do
+    match ← asArr p with
+    | [k, v] => pure ((← k.getStr?), (← parseVal v))
+    | _ => throw "bad field"
+
+def errOfName (s : String) : Err :=
+  if s == "ValueError" then .valueError else if s == "KeyError" then .keyError
+  else if s == "JSONDecodeError" then .jsonError else if s == "UnknownTimeZoneError" then .unknownTz
+  else .transport
+
+def parseResp (j : Json) : Except String (Resp Doc) := do
+  let kind ← getStr j "kind"
+  if kind == "page" then
+    let items ← (← getArr j "items").mapM parseDoc
+    let n ← j.getObjVal? "next"
+    let t ← getStr n "t"
+    let next ← if t == "last" then pure Next.last
+               else if t == "broken" then pure Next.broken
+               else do pure (Next.next (← getStr n "href"))
+    pure (.page { items, next })
+  else pure (.fail (errOfName (← getStr j "err")))
+
+def parseServer (j : Json) : Except String (List (String × Resp Doc)) := do
+  let a ← getArr j "server"
+  a.mapM fun p => do
+    match ← asArr p with
+    | [u, r] => pure ((← u.getStr?), (← parseResp r))
+    | _ => throw "bad server entry"
+
+/-- unknown URL: the API answers with an error document, which has no `_items` -/
+def fetchOf (srv : List (String × Resp Doc)) (u : String) : Resp Doc :=
+  match srv.find? (fun p => p.1 == u) with
+  | some p => p.2
+  | none => .fail .keyError
+
+def parseHead (j : Json) : Except String (List (String × Option String)) := do
+  let a ← getArr j "head"
+  a.mapM fun p => do
+    match ← asArr p with
+    | [u, v] => pure ((← u.getStr?), (match v.getStr? with | .ok s => some s | .error _ => none))
+    | _ => throw "bad head entry"
+
+/-- unknown URL: no `x-total-count` header -/
+def headOf (hs : List (String × Option String)) (u : String) : Option String :=
+  match hs.find? (fun p => p.1 == u) with
+  | some p => p.2
+  | none => none
+
+def jAware (a : Aware) : Json :=
+  Json.arr #[jI a.instant, jI a.off, jI a.loc.y, jI a.loc.mo, jI a.loc.d, jI a.loc.h, jI a.loc.mi, jI a.loc.s]
+
+def jPVal : PVal → Json
+  | .str s => Json.mkObj [("s", jS s)]
+  | .date a => Json.mkObj [("d", jAware a)]
+  | .ts l => Json.mkObj [("ts", jList jAware l)]
+  | .other => Json.mkObj [("o", jB true)]
+
+def jPDoc (d : PDoc) : Json := jList (fun p => Json.arr #[jS p.1, jPVal p.2]) d
+
+def jErr (e : Option Err) : Json := jOpt (fun e => jS e.name) e
+
+def jTrace (r : Except Err (Trace PDoc)) : Json :=
+  match r with
+  | .error e => Json.mkObj [("pre", jS e.name)]
+  | .ok t => Json.mkObj [("pre", Json.null), ("urls", jList jS t.urls), ("items", jList jPDoc t.items),
+                         ("stop", jErr t.stop)]
+
+def jCount (r : Except Err (String × Except Err String)) : Json :=
+  match r with
+  | .error e => Json.mkObj [("pre", jS e.name)]
+  | .ok (u, .ok v) => Json.mkObj [("pre", Json.null), ("urls", jList jS [u]), ("count", jS v), ("stop", Json.null)]
+  | .ok (u, .error e) => Json.mkObj [("pre", Json.null), ("urls", jList jS [u]), ("count", Json.null), ("stop", jS e.name)]
+
+def handle (j : Json) : Except String Json := do
+  let op ← getStr j "op"
+  if op == "sessions" then
+    let zs ← parseZones j
+    let srv ← parseServer j
+    let q : Query := { cond := ← getOptStr j "cond", project := ← getOptStr j "project",
+                       sort := ← getOptStr j "sort", timeseries := ← getBool j "timeseries" }
+    let r := getSessions (← getStr j "base") (← getStr j "site") q (fetchOf srv)
+      (parseDates (zoneLookup zs)) (← getNat j "fuel")
+    pure (jTrace r)
+  else if op == "by_time" then
+    let start ← getOpt j "start" parseAware
+    let stop ← getOpt j "end" parseAware
+    let me ← getOptStr j "min_energy"
+    let ts ← getBool j "timeseries"
+    let base ← getStr j "base"
+    let site ← getStr j "site"
+    let dom := (match start with | some a => inFormatDomain a.instant | none => true) &&
+               (match stop with | some a => inFormatDomain a.instant | none => true)
+    if !dom then return Json.mkObj [("domain", jB false)]
+    if ← getBool j "count" then
+      let hs ← parseHead j
+      pure (jCount (countSessions base site (some (timeCond start stop me)) (headOf hs)))
+    else
+      let zs ← parseZones j
+      let srv ← parseServer j
+      let r := getSessions base site (timeQuery start stop me ts) (fetchOf srv)
+        (parseDates (zoneLookup zs)) (← getNat j "fuel")
+      pure (jTrace r)
+  else if op == "count" then
+    let hs ← parseHead j
+    pure (jCount (countSessions (← getStr j "base") (← getStr j "site") (← getOptStr j "cond") (headOf hs)))
+  else if op == "http_date" then
+    let a ← parseAware (← j.getObjVal? "dt")
+    pure (Json.mkObj [("s", jS (httpDate a)), ("domain", jB (inFormatDomain a.instant)),
+                      ("instant", jI a.instant)])
+  else if op == "parse" then
+    let z ← parseZone (← j.getObjVal? "zone")
+    pure (Json.mkObj [("r", jOpt jAware (parseHttpDate z.off (← getStr j "s")))])
+  else if op == "dates" then
+    let zs ← parseZones j
+    let items ← getArr j "items"
+    let outs ← items.mapM fun it => do
+      let zn ← getStr it "zone"
+      let z ← match zoneLookup zs zn with
+        | some z => pure z
+        | none => throw s!"zone {zn} not supplied"
+      match it.getObjVal? "dt" with
+      | .ok d => do
+        let a ← parseAware d
+        let s := httpDate a
+        pure (Json.mkObj [("s", jS s), ("domain", jB (inFormatDomain a.instant)), ("instant", jI a.instant),
+                          ("r", jOpt jAware (parseHttpDate z.off s))])
+      | .error _ => do
+        let s ← getStr it "s"
+        pure (Json.mkObj [("s", jS s), ("domain", jB true), ("instant", Json.null),
+                          ("r", jOpt jAware (parseHttpDate z.off s))])
+    pure (Json.mkObj [("results", Json.arr outs.toArray)])
+  else throw s!"unknown op {op}"
 
 def main : IO Unit := runDriver handle
